@@ -28,14 +28,14 @@ package pstore
 //     result stream is eventually closed": so either the call returns an error (no stream exists) or the stream it
 //     returned is closed within the stall window. The deadline only shapes the schedule, the verdict is the stall rule.
 //     Afterwards the first stream is drained (it must close as well). The same closure-only rule is applied to a Search
-//     issued after Vault.Close (optional last step of a case);
+//     issued after Vault.Close (optional last step of a case) and to "cancelled" queries: Search/List entered with a
+//     context that is already cancelled;
 //   * On the cosmos fake only Exists is judged: the fake discards the query text of Search/List (it filters by @ids only
 //     and ignores ORDER BY, status and group predicates), so their semantics would be the fake's, not the vault's.
 
 import (
 	"context"
 	"fmt"
-	"os"
 	"sort"
 	"sync/atomic"
 	"testing"
@@ -141,7 +141,7 @@ func genStoreCase(t *rapid.T) StoreCase {
 	nq := rapid.IntRange(1, 12).Draw(t, "nqueries")
 	for i := 0; i < nq; i++ {
 		var q Query
-		switch r := rapid.IntRange(0, 8).Draw(t, "qkind"); {
+		switch r := rapid.IntRange(0, 9).Draw(t, "qkind"); {
 		case r <= 3:
 			q.Kind = "search"
 			filters(&q)
@@ -151,10 +151,10 @@ func genStoreCase(t *rapid.T) StoreCase {
 		case r <= 7:
 			q.Kind = "list"
 			q.Limit = rapid.IntRange(0, n+2).Draw(t, "limit")
-		case r == 8 && os.Getenv("VERIF_C15_CANCELLED_CTX") != "":
-			// Off by default (see the final report: on the unchanged tree Search/List ignore the error of the worker
-			// pool's Submit, so a call with an already cancelled context can return a stream that is never closed and
-			// leak the vault's only connection). Enable to reproduce.
+		case r == 9:
+			// Search/List entered with a context that is ALREADY cancelled (closure-only rule). Before /repo cff7769 the
+			// error of the worker pool's Submit was ignored: about one such call in four returned a stream that was never
+			// closed and leaked the vault's only connection (regressions/C15/sqlite-submit-error-ignored.json).
 			q.Kind = "cancelled"
 			q.Second = rapid.SampledFrom([]string{"search", "list"}).Draw(t, "second")
 			q.Limit = rapid.IntRange(1, n+2).Draw(t, "limit")
